@@ -31,7 +31,7 @@ RULE = (
     'Distinct = distinct (program, layout tape, data) JSON.'
 )
 ASSUMPTIONS = [
-    'identifiers with a leading underscore and names of container attributes are excluded by construction',
+    'names of container attributes are excluded by construction',
     'numeric literals have no exponent; verbatim fragments are atomic expressions',
     'the left-hand side is written without inner whitespace',
 ]
@@ -43,7 +43,7 @@ LEVEL_TEXT = ('Every generated script is translated by fsic and validated struct
               'against a reference evaluator, reads/writes recorded). Exhaustive up to a node bound on a reduced alphabet, '
               'random beyond. Right level: the translator is a regex chain whose failures are shape-specific.')
 LEVEL_NOTE = ('Trusted: CPython ast/compile, NumPy float arithmetic, my renderer (self-checked against a separate '
-              'rewriter at start-up). Not covered: scripts outside grammar G (exponent literals, leading-underscore names, '
+              'rewriter at start-up). Not covered: scripts outside grammar G (exponent literals, '
               'whitespace inside the left-hand side).')
 
 C01_LAYOUT_KINDS = {'explicit0', 'index-pad', 'brace-pad', 'angle-pad', 'wrap-rhs', 'paren-pad', 'comment',
@@ -89,7 +89,7 @@ def check_program(case, *, layout_kinds=C01_LAYOUT_KINDS, dynamic=True):
             continue
         want = G.dump(G.statement_pyast(st))
         try:
-            got = G.dump(ast.parse(sym.code))
+            got = G.dump(G.parse_code(sym.code))
         except SyntaxError as e:
             res.fail('structure/code-not-python', f'{text!r}: {sym.code!r}: {e}')
             continue
